@@ -71,7 +71,7 @@ func (w *wset) merge(o *wset) {
 // functions do not write memory reachable from the analysed program's own
 // data structures (they return fresh values).
 func DefaultPure(name string) bool {
-	for _, p := range []string{"strings.", "unicode.", "unicode/utf8.", "math.", "strconv.", "path/filepath.", "path.", "time.", "(time.", "(*time.", "fmt.Sprint", "fmt.Errorf", "fmt.Print", "fmt.Fprint", "errors.", "os.Stat", "os.Getenv", "os.LookupEnv", "os.ReadFile", "os.IsNotExist", "os.IsPermission", "os.MkdirAll", "os.UserHomeDir", "os.UserConfigDir", "os.Executable", "regexp.", "(*regexp.Regexp).", "(*strings.Builder).", "crypto/sha256.", "log.", "runtime.", "github.com/sahilm/fuzzy.Find", "(*container/list.List).", "container/list.", "(*container/list.Element).", "sync/atomic.", "encoding/json.Marshal", "crypto/sha256.", "(*sync.", "sync/atomic.Load", "(*os.File).", "(io/fs.FileInfo).", "(os.FileInfo).", "os.CreateTemp", "os.Rename", "os.Remove", "os.WriteFile", "os.Getwd", "os.ReadDir"} {
+	for _, p := range []string{"strings.", "unicode.", "unicode/utf8.", "math.", "strconv.", "path/filepath.", "path.", "time.", "(time.", "(*time.", "fmt.Sprint", "fmt.Errorf", "fmt.Print", "fmt.Fprint", "errors.", "os.Stat", "os.Getenv", "os.LookupEnv", "os.ReadFile", "os.IsNotExist", "os.IsPermission", "os.MkdirAll", "os.UserHomeDir", "os.UserConfigDir", "os.Executable", "regexp.", "(*regexp.Regexp).", "(*strings.Builder).", "crypto/sha256.", "log.", "runtime.", "github.com/sahilm/fuzzy.Find", "(*container/list.List).", "container/list.", "(*container/list.Element).", "sync/atomic.", "encoding/json.Marshal", "crypto/sha256.", "(*sync.", "sync/atomic.Load", "(*os.File).", "(io/fs.FileInfo).", "(os.FileInfo).", "os.CreateTemp", "os.Rename", "os.Remove", "os.WriteFile", "os.Getwd", "os.ReadDir", "maps.Keys", "maps.Values", "maps.All", "slices.Sorted", "slices.Collect", "slices.Contains", "slices.Index", "slices.Equal", "slices.Max", "slices.Min", "slices.Values", "slices.All", "encoding/hex.", "sort.Search", "sort.IsSorted", "sort.SliceIsSorted", "(*bytes.Buffer).", "bytes.", "unicode/utf16.", "hash/fnv.", "iter."} {
 		if strings.HasPrefix(name, p) {
 			return true
 		}
